@@ -139,13 +139,24 @@ class CounterInterval:
                 return (lo, hi)
         if isinstance(e, ast.UnaryOp) and isinstance(e.op, ast.Not):
             return self.refine(e.operand, not branch, iv, depth, opaque_bottom)
+        if isinstance(e, ast.Call) and isinstance(e.func, ast.Name) and \
+                e.func.id in ("all", "any") and len(e.args) == 1 and \
+                not e.keywords and isinstance(e.args[0], (ast.Tuple, ast.List)) \
+                and e.args[0].elts and not any(
+                    isinstance(x, ast.Starred) for x in e.args[0].elts):
+            # all((a, b, ...)) / any([a, b, ...]) over a display: a BoolOp
+            e = ast.BoolOp(op=ast.And() if e.func.id == "all" else ast.Or(),
+                           values=list(e.args[0].elts))
         if isinstance(e, ast.BoolOp):
             is_or = isinstance(e.op, ast.Or)
             if is_or != branch:
                 # or/False, and/True: every operand has the branch value
                 out = iv
                 for v in e.values:
-                    out = self.refine(v, branch, out, depth, False)
+                    # a conjunct that says nothing about the counter (the
+                    # metadata flag; C10.close admits no other) is assumed
+                    # false under opaque_bottom, so the conjunction is too
+                    out = self.refine(v, branch, out, depth, opaque_bottom)
                 return out
             out = BOTTOM
             for v in e.values:
